@@ -52,10 +52,18 @@ def session(args, variant="rel", sched=False, out=None, timeout=40, env=None):
     except subprocess.TimeoutExpired as t:
         return {"timeout": True, "exit": None, "stderr": (t.stderr or b"")[-3000:].decode("latin1")}
     res = {"timeout": False, "exit": p.returncode, "stderr": p.stderr[-60000:].decode("latin1")}
-    line = p.stdout.decode("latin1").strip().split("\n")[-1] if p.stdout.strip() else ""
+    lines = p.stdout.decode("latin1").strip().split("\n") if p.stdout.strip() else [""]
+    line = lines[-1]
     try:
         res.update(json.loads(line))
         res["parsed"] = True
+        if len(lines) > 1:
+            res["all"] = []
+            for l in lines:
+                try:
+                    res["all"].append(json.loads(l))
+                except Exception:
+                    pass
     except Exception:
         res["parsed"] = False
         res["stdout"] = p.stdout[-2000:].decode("latin1")
